@@ -910,14 +910,26 @@ int main(int argc, char** argv)
       Type* VT = G.getValueType();
       glob << "extern " << declare(VT, gName[&G]) << ";\n";
    }
+   bool undefGlobal = false;
    for(GlobalVariable& G : M->globals())
    {
       if(G.getName().startswith("llvm.")) continue;
       Type* VT = G.getValueType();
+      if(!G.hasInitializer() && !G.use_empty())
+      {
+         // a referenced global that no linked translation unit defines: only the C++ runtime's own objects are
+         // tolerated (as zero objects); anything else would silently read as 0 in the encoding
+         StringRef n = G.getName();
+         bool ok = n.startswith("_ZSt") || n.startswith("_ZTVN10__cxxabiv") || n.startswith("_ZTVS") || n.startswith("_ZTVN") || n.startswith("_ZTIS") || n.startswith("_ZTIN")
+                   || n.startswith("_ZTT") || n == "__dso_handle" || n == "__libc_single_threaded" || n == "stdout" || n == "stderr" || n == "stdin" || n.startswith("_ZNSt") || n.startswith("_ZTISt") || n.startswith("_ZTVSt")
+                   || n.startswith("_ZTIP") || n.startswith("_ZTI") ;
+         if(!ok) { errs() << "ll2c: undefined external global (link its defining source via repo_srcs): " << llvm::demangle(n.str()) << "\n"; undefGlobal = true; }
+      }
       glob << declare(VT, gName[&G]);
       if(G.hasInitializer()) glob << " = " << constInit(G.getInitializer(), nullptr);
       glob << ";\n";
    }
+   if(undefGlobal) return 2;
    std::vector<std::pair<uint64_t, const Function*>> ctors;
    if(auto* GC = M->getGlobalVariable("llvm.global_ctors"))
       if(auto* CA = dyn_cast<ConstantArray>(GC->getInitializer()))
